@@ -81,3 +81,38 @@ theorem plain_model_types_with_leaves :
   decide
 
 end CV.C09
+
+namespace CV.C09
+open CV CV.Decode
+
+/-- **extension attributes**: `processExtensions` undoes the encoder's inline splice — on a rendering whose extension
+    entries (`x-…` keys) were spliced in front of the struct's own entries (none of which starts with `x-`), it gathers exactly
+    those entries under `#extensions`, the key the decoder reads the extension map from, and processes the other values -/
+theorem procExt_splice (f : Nat) (ext out : List (String × Val))
+    (hext : ∀ p ∈ ext, isExtKey p.1 = true) (hout : ∀ p ∈ out, isExtKey p.1 = false) (hne : ext ≠ []) :
+    procExt (f + 1) (.map (ext ++ out)) =
+      .map (out.map (fun p => (p.1, procExt f p.2)) ++ [("#extensions", .map ext)]) := by
+  have h1 : (ext ++ out).filter (fun p => isExtKey p.1) = ext := by
+    rw [List.filter_append, List.filter_eq_self.mpr hext, List.filter_eq_nil_iff.mpr (fun p hp => by simp [hout p hp])]
+    simp
+  have h2 : (ext ++ out).filter (fun p => !isExtKey p.1) = out := by
+    rw [List.filter_append, List.filter_eq_nil_iff.mpr (fun p hp => by simp [hext p hp]),
+      List.filter_eq_self.mpr (fun p hp => by simp [hout p hp])]
+    simp
+  have h3 : ext.isEmpty = false := by
+    cases ext with
+    | nil => exact absurd rfl hne
+    | cons _ _ => rfl
+  simp only [procExt, h1, h2, h3, Bool.false_eq_true, if_false]
+
+/-- without extension entries nothing is added -/
+theorem procExt_plain (f : Nat) (out : List (String × Val)) (hout : ∀ p ∈ out, isExtKey p.1 = false) :
+    procExt (f + 1) (.map out) = .map (out.map (fun p => (p.1, procExt f p.2))) := by
+  have h1 : out.filter (fun p => isExtKey p.1) = [] := List.filter_eq_nil_iff.mpr (fun p hp => by simp [hout p hp])
+  have h2 : out.filter (fun p => !isExtKey p.1) = out := List.filter_eq_self.mpr (fun p hp => by simp [hout p hp])
+  simp [procExt, h1, h2]
+
+example : procExt 3 (.map [("x-a", .int 1), ("image", .str "i")]) = .map [("image", .str "i"), ("#extensions", .map [("x-a", .int 1)])] := by
+  rfl
+
+end CV.C09
